@@ -66,6 +66,7 @@ type World struct {
 	curStmt    int
 	curAction  string
 	podIndex   map[string]int // pod object name -> 1-based scenario pod index
+	slow       map[string]bool // env slowbind: BindRequests of multi-device pods that were left half way once
 	nodeIndex  map[string]int
 	jobIndex   map[string]int
 	queueIndex map[string]int
@@ -654,6 +655,28 @@ func (w *World) EnvStep() error {
 		if err == nil && pod.DeletionTimestamp == nil && pod.Spec.NodeName == "" {
 			idx := w.podIndex[pod.Name]
 			multi := idx > 0 && w.Sc.Pods[idx-1].Devs > 1
+			if w.Sc.Cfg.Env == "slowbind" && multi && len(br.Spec.SelectedGPUGroups) > 1 && !w.slow[br.Name] {
+				// the binder reserves the devices of a multi-device fraction pod one at a time: this request is caught
+				// half way - the first group is labelled and has its reservation pod, the pod is not bound yet, the
+				// request stays in flight until the next environment step
+				if w.slow == nil {
+					w.slow = map[string]bool{}
+				}
+				w.slow[br.Name] = true
+				pod = pod.DeepCopy()
+				ApplyGroupLabels(pod, br.Spec.SelectedGPUGroups[:1], true)
+				if _, err := w.Kube.CoreV1().Pods(Namespace).Update(ctx, pod, metav1.UpdateOptions{}); err != nil {
+					return err
+				}
+				rp := BuildReservationPod(br.Spec.SelectedNode, br.Spec.SelectedGPUGroups[0])
+				if _, err := w.Kube.CoreV1().Pods(ReservationNS).Get(ctx, rp.Name, metav1.GetOptions{}); err != nil {
+					if _, err := w.Kube.CoreV1().Pods(ReservationNS).Create(ctx, rp, metav1.CreateOptions{}); err != nil {
+						return err
+					}
+				}
+				continue
+			}
+			delete(w.slow, br.Name)
 			pod = pod.DeepCopy()
 			pod.Spec.NodeName = br.Spec.SelectedNode
 			pod.Status.Phase = v1.PodRunning
